@@ -1,0 +1,75 @@
+//go:build verif
+
+// Package verifhook provides crash points for the verification harness.
+//
+// With the "verif" build tag a call to CrashPoint(name)
+//   - appends name to the file named by the environment variable VERIF_CRASH_LIST (if set),
+//     so that a dry run enumerates the points an operation passes, and
+//   - terminates the process immediately with exit status 137 when the environment variable
+//     VERIF_CRASH_AT is "name#k" and this is the k-th (1-based) call with that name.
+//
+// Nothing is flushed or closed on the way out: the process dies between two durable writes.
+// Counting starts when Arm is called (the harness arms the hook right before the operation
+// under test); before that CrashPoint only returns.
+package verifhook
+
+import (
+	"fmt"
+	"os"
+	"strconv"
+	"strings"
+	"sync"
+)
+
+// Enabled reports whether crash points are compiled in.
+const Enabled = true
+
+var (
+	mu     sync.Mutex
+	armed  bool
+	counts = map[string]int{}
+)
+
+// Arm starts counting and acting on crash points.
+func Arm() {
+	mu.Lock()
+	defer mu.Unlock()
+	armed = true
+	counts = map[string]int{}
+}
+
+// Disarm stops acting on crash points.
+func Disarm() {
+	mu.Lock()
+	defer mu.Unlock()
+	armed = false
+}
+
+// CrashPoint marks a point between two successive durable writes.
+func CrashPoint(name string) {
+	mu.Lock()
+	defer mu.Unlock()
+	if !armed {
+		return
+	}
+	counts[name]++
+	if list := os.Getenv("VERIF_CRASH_LIST"); list != "" {
+		if f, err := os.OpenFile(list, os.O_APPEND|os.O_CREATE|os.O_WRONLY, 0o600); err == nil {
+			fmt.Fprintf(f, "%s#%d\n", name, counts[name])
+			_ = f.Close()
+		}
+	}
+	at := os.Getenv("VERIF_CRASH_AT")
+	if at == "" {
+		return
+	}
+	idx := strings.LastIndexByte(at, '#')
+	if idx < 0 {
+		return
+	}
+	k, err := strconv.Atoi(at[idx+1:])
+	if err != nil || at[:idx] != name || k != counts[name] {
+		return
+	}
+	os.Exit(137)
+}
